@@ -51,10 +51,10 @@ checks = {
  "C18": ("exploration", "API call sequences under panic capture, fatal hook, hang watchdog and future timers; child process per sequence",
          "Seed-determined bounded sequences of public API calls with valid, boundary and invalid arguments in every node state; oracles: no panic (in the caller or in any library goroutine), no fatal abort, no call blocked beyond the hang bound (with goroutine dumps), every future resolved by its timeout, committed membership change resolves its future.",
          "bounded sequences; real time with generous bounds", "5/C18"),
- "C16": ("exploration", "guarded-window monitor on term writes, leadership starts and leader samples, with measured timing preconditions",
+ "C16": ("exploration", "guarded-window monitor on term writes, leadership starts and leader samples, with measured timing preconditions; single-node probe monitor (answer to the leader, then a vote request microseconds later must be refused)",
          "Directed windows on stable clusters: outsiders (isolated symmetrically or one-way, restarted, removed, lingering candidates, duplicated/late requests; busy and idle clusters) must not make any majority-side node persist a higher term, nor anybody become leader, nor the leader's samples change; all three are exact boundary events. Runs whose measured heartbeat gaps or scheduler stalls break the 'prompt contact' premise are inconclusive.",
          "real time; premise measured per run", "5/C16"),
- "C17": ("exploration", "lease reads judged by the sequence-number staleness oracle, a lapsed-lease rule and a lease-overlap watcher, with measured timing preconditions",
+ "C17": ("exploration", "lease reads judged by the sequence-number staleness oracle, a lapsed-lease rule and a lease-overlap watcher, with measured timing preconditions; single-node probe monitor (every answer that renews the leader's lease must be followed by refusing votes)",
          "Lease-based reads are issued continuously at old leaders across partitions and leader changes; successful ones must cover every write acknowledged before their invocation; reads invoked > 5 leases after the last voter reply must not return data; no node may become leader while another still reports a valid lease. Runs where lease + max round trip + max stall >= election timeout are inconclusive.",
          "real time; clocks of all nodes are one process clock (synchronised by construction)", "5/C17"),
  "C14": ("fault_enumeration", "crash-fork at seed-chosen storage-operation boundaries in cluster runs, restart over the image, all safety oracles + bounded catch-up",
